@@ -30,10 +30,17 @@ type Sched struct {
 	// Coarse: yield only at harness step boundaries and I/O seams (race build), not inside
 	// allocator calls, whose sequence depends on sync.Pool's random drops under -race.
 	// StmtDen is SwitchDen for statement-level yield points (fine-grained build).
-	StmtDen  int
-	Coarse   bool
-	wg       sync.WaitGroup
-	switchAt [8]int64
+	StmtDen int
+	// AtomicDen is SwitchDen for the scheduling points in front of sync/atomic operations.
+	AtomicDen int
+	Coarse    bool
+	wg        sync.WaitGroup
+	switchAt  [8]int64
+	// priority-based scheduling (UsePCT)
+	pct    bool
+	prio   []int
+	change []int64
+	demote int
 }
 
 // Task is one simulated caller goroutine.
@@ -56,12 +63,13 @@ const (
 	YWrite
 	YMalloc
 	YFree
-	YStmt // before a statement of the library (fine-grained build only)
+	YStmt   // before a statement of the library (fine-grained build only)
+	YAtomic // before a sync/atomic operation of the library (fine-grained build only)
 )
 
 // NewSched creates a scheduler for the run c.
 func NewSched(c *Ctx) *Sched {
-	s := &Sched{c: c, st: c.Tape.S("sched"), cur: -1, SwitchDen: 4, StmtDen: 32}
+	s := &Sched{c: c, st: c.Tape.S("sched"), cur: -1, SwitchDen: 4, StmtDen: 32, AtomicDen: 32}
 	c.Sched = s
 	return s
 }
@@ -167,6 +175,10 @@ func (s *Sched) Yield(me int, point int) {
 		return
 	}
 	s.steps++
+	if s.pct {
+		s.yieldPCT(me, point)
+		return
+	}
 	others := s.runnable(me)
 	if len(others) == 0 {
 		return
@@ -175,6 +187,9 @@ func (s *Sched) Yield(me int, point int) {
 	den := s.SwitchDen
 	if point == YStmt {
 		den = s.StmtDen
+	}
+	if point == YAtomic {
+		den = s.AtomicDen
 	}
 	v := s.st.Choose(len(others) * den)
 	if v < len(others)*(den-1) {
@@ -192,12 +207,86 @@ func (s *Sched) Yield(me int, point int) {
 	}
 }
 
+// UsePCT switches the scheduler to priority-based scheduling (Burckhardt et al., "A
+// randomized scheduler with probabilistic guarantees of finding bugs"): every task gets a
+// distinct random priority, the highest-priority runnable task runs, and at d-1 tape-chosen
+// steps out of an estimated horizon the running task drops to the lowest priority. Unlike
+// the per-yield coin, this parks a task at one point for a long time while the others run to
+// completion - the shape a "both loaded before either stored" defect needs. All choices are
+// drawn from the tape up front, so a schedule is a handful of values.
+func (s *Sched) UsePCT(depth int, horizon int64) {
+	s.pct = true
+	n := len(s.tasks)
+	s.prio = make([]int, n)
+	perm := make([]int, n)
+	for i := range perm {
+		perm[i] = i
+	}
+	for i := n - 1; i > 0; i-- {
+		j := s.st.Choose(i + 1)
+		perm[i], perm[j] = perm[j], perm[i]
+	}
+	for i, t := range perm {
+		s.prio[t] = depth + n - i // all above the demoted range [0, depth)
+	}
+	if horizon < 1 {
+		horizon = 1
+	}
+	s.change = s.change[:0]
+	for i := 0; i < depth-1; i++ {
+		// change points as (hi, lo) pairs so that big horizons stay representable on the tape
+		hi := s.st.Choose(int(horizon>>12) + 1)
+		lo := s.st.Choose(4096)
+		s.change = append(s.change, int64(hi)<<12|int64(lo))
+	}
+	s.demote = depth - 1
+}
+
+//go:norace
+func (s *Sched) yieldPCT(me, point int) {
+	for i, cp := range s.change {
+		if cp == s.steps {
+			s.demote--
+			s.prio[me] = s.demote
+			s.change[i] = -1
+		}
+	}
+	best := me
+	for _, t := range s.tasks {
+		if !t.done && s.prio[t.ID] > s.prio[best] {
+			best = t.ID
+		}
+	}
+	if best == me {
+		s.sig = (s.sig ^ uint64(me+1)) * 0x100000001b3
+		return
+	}
+	s.Switch++
+	s.switchAt[point&7]++
+	s.sig = (s.sig ^ uint64(best+1) ^ uint64(point+1)<<8) * 0x100000001b3
+	s.cur = best
+	s.waitFor(me)
+	if s.abort {
+		panic(schedAbort{})
+	}
+}
+
 //go:norace
 func (s *Sched) finish(t *Task) {
 	t.done = true
 	others := s.runnable(t.ID)
 	if len(others) == 0 {
 		s.cur = -1
+		return
+	}
+	if s.pct {
+		best := others[0]
+		for _, o := range others {
+			if s.prio[o] > s.prio[best] {
+				best = o
+			}
+		}
+		s.cur = best
 		return
 	}
 	s.cur = others[s.st.Choose(len(others))]
@@ -253,7 +342,15 @@ func (s *Sched) Run() *Violation {
 			t.body(t)
 		}()
 	}
-	s.start(s.tasks[s.st.Choose(len(s.tasks))].ID)
+	firstTask := s.tasks[s.st.Choose(len(s.tasks))].ID
+	if s.pct {
+		for _, t := range s.tasks {
+			if s.prio[t.ID] > s.prio[firstTask] {
+				firstTask = t.ID
+			}
+		}
+	}
+	s.start(firstTask)
 	s.mainWait()
 	s.wg.Wait() // a real happens-before edge task -> main, after all library code has run
 	var first *Violation
@@ -266,7 +363,7 @@ func (s *Sched) Run() *Violation {
 	s.c.Ev(uint64(s.sig), uint64(s.Switch))
 	s.c.CountN("sched.switches", s.Switch)
 	s.c.CountN("sched.yields", s.steps)
-	for i, name := range []string{"step", "source_read", "sink_write", "malloc", "free", "statement"} {
+	for i, name := range []string{"step", "source_read", "sink_write", "malloc", "free", "statement", "atomic_op"} {
 		if s.switchAt[i] > 0 {
 			s.c.CountN("probe.switch_at_"+name, s.switchAt[i])
 		}
